@@ -146,6 +146,17 @@ def profiles(tier, rnd):
             T -= rnd.random() * 2.0
             pts.append([100.0 * (1 - i / (n - 1)), T])
         out.append((f"noisy|n={n}", pts, 0.3))
+    # short smooth profiles on which the refinement converges (S-shaped, gas-cooler-like): sidedness is then decided by the
+    # constraint the code builds, not by the optimiser's slack; the hot/cold flag is passed as numpy.bool_ (seed C17d)
+    for kind in ("S", "gc"):
+        for n in (40, 80):
+            for eps in (0.05, 0.1):
+                xs = [i / (n - 1) for i in range(n)]
+                if kind == "S":
+                    pts = [[100.0 * (1 - x), 120.0 - 90.0 / (1.0 + math.exp(-10.0 * (x - 0.5)))] for x in xs]
+                else:
+                    pts = [[100.0 * (1 - x), 30.0 + 90.0 * (1 - x) ** 0.45 + 10.0 * (1 - x) ** 3] for x in xs]
+                out.append((f"npflag-{kind}|n={n}|eps={eps}", pts, eps))
     return out
 
 
@@ -181,12 +192,14 @@ def trace_events(tier):
 
 
 def _collect(tier, rnd, events, meta, calls, get_piecewise_data_points, np):
-    for name, pts, eps in profiles(tier, rnd):
+    for pi, (name, pts, eps) in enumerate(profiles(tier, rnd)):
         for hot in (True, False):
             eid = f"{name}|{'hot' if hot else 'cold'}"
             del calls[:]
             try:
-                res = np.asarray(get_piecewise_data_points(curve=[list(p) for p in pts], is_hot_stream=hot, dt_diff_max=eps), float)
+                # the flag as a caller derives it from a T-h array (numpy.bool_) on every second profile, as a Python bool otherwise
+                flag = np.bool_(hot) if (pi % 2 or name.startswith("npflag")) else hot
+                res = np.asarray(get_piecewise_data_points(curve=[list(p) for p in pts], is_hot_stream=flag, dt_diff_max=eps), float)
             except Exception as e:
                 meta[eid] = dict(raises=repr(e)[:200])
                 continue
